@@ -260,7 +260,8 @@ MODES["progs"] = mode_progs
 
 
 def main(argv):
-    mode, path = argv[1], argv[2]
+    mode = argv[1]
+    path = argv[2] if len(argv) > 2 else None
     if mode == "server":
         from oracle import server
 
